@@ -632,7 +632,16 @@ var registry = map[string]*Check{}
 func Register(c *Check) { registry[c.ID] = c }
 
 // Main dispatches "<id>" or "replay <path>".
+// Modes are extra command words of an engine binary (args[0]): a check may run
+// a single input in a child process of its own binary when the code under test
+// can take the whole process down (a panic on a goroutine of the library).
+var Modes = map[string]func(args []string){}
+
 func Main(args []string) {
+	if len(args) >= 1 && Modes[args[0]] != nil {
+		Modes[args[0]](args[1:])
+		os.Exit(0)
+	}
 	if len(args) >= 2 && args[0] == "replay" {
 		b, err := os.ReadFile(args[1])
 		if err != nil {
